@@ -1,0 +1,9 @@
+//go:build verif
+
+package vm
+
+// VerifRefs returns the VM's stack item reference counter.
+func (v *VM) VerifRefs() int { return int(v.refs) }
+
+// VerifTryDepth returns the number of exception handling contexts of c.
+func (c *Context) VerifTryDepth() int { return c.tryStack.Len() }
